@@ -617,7 +617,8 @@ def load_sensitivity (spec, f):
             x = w * l ['L'] - 1 / (w * l ['C'])
             amp = max (amp, 3.0 * (w * l ['L'] + 1 / (w * l ['C'])) / max (abs (complex (l.get ('R') or 0.0, x)), 1e-9))
         elif l ['k'] == 'lap':
-            amp = max (amp, 10.0, 3.0 * lap_cond (l, f))
+            # (coefficients of S^4 and higher: six digits of each of up to seven numbers, the same error on every loaded pulse)
+            amp = max (amp, 10.0, (3.0 if len (l ['a']) <= 4 else 8.0) * lap_cond (l, f))
         elif l ['k'] == 'ins':
             # L' ~ (1 - 1 / eps) ln (b / a): six printed digits of b and eps are amplified by 1 / ln (b / a) and 1 / (eps - 1)
             sc = 1.0
